@@ -181,7 +181,7 @@ func TestC15_Errors(t *testing.T) {
 				case 1:
 					junk = strings.ToUpper(words[p])
 				case 2:
-					junk = words[p] + rapid.SampledFrom([]string{"s", "x", "́", "゙", "."}).Draw(rt, "suffix")
+					junk = words[p] + rapid.SampledFrom([]string{"s", "x", "\u0301", "\u3099", "."}).Draw(rt, "suffix")
 				case 3:
 					junk = gen.UString(3).Draw(rt, "ustr")
 				default:
